@@ -183,6 +183,25 @@ def judge_one(g, bindir, wd):
                     if (S2["status"], S2["value"]) != (S["status"], S["value"]):
                         V.append(("C19|-B|answer-differs", "with -B: %s %s, without: %s %s" % (S2["status"], S2["value"], S["status"], S["value"])))
                     C["basis-roundtrips"] = 1
+                # "is accepted as optimal": esolver -B would silently repair a wrong start basis by pivoting, so the file is also
+                # read back through the library's reader against the same problem file and judged by its exact verdict function
+                fmt = "LP" if ("-L" in g["opts"] or ".lp" in g["fname"]) else "MPS"
+                sub = os.path.join(wd, "bv%d" % g["k"])
+                vc = run.Case("C19-bv-%d" % g["k"], ["read_prob p0 %s %s" % (os.path.join(wd, g["fname"]), fmt),
+                                                    "read_basis p0 %s b1" % bas, "basis_optimalstatus p0 b1", "basis_dualstatus p0 b1"])
+                try:
+                    rr = run.run_cases(os.path.join(bindir["asan"], "qsdrive"), [vc], sub, batch=1, timeout=120)[vc.id]
+                except run.HarnessError:
+                    rr = None
+                if rr is not None and not rr.crash and not rr.timeout:
+                    rp, rb, bo = rr.ev("read_prob"), rr.ev("read_basis"), rr.ev("basis_optimalstatus")
+                    if rp is not None and rp.get("rc") == 0:
+                        C["basis-verdicts"] = 1
+                        if rb is None or rb.get("rc") != 0:
+                            V.append(("C19|-b|basis-unreadable", "the basis file written with -b is rejected by QSread_basis: %s" % (rb or {}).get("logs", [])[:3]))
+                        elif bo is None or bo.get("rc") != 0 or bo.get("result") != 1:
+                            V.append(("C19|-b|basis-not-optimal", "the basis file written with -b is not an optimal basis of the problem (QSexact_basis_optimalstatus: %r)\n%s" % (
+                                bo, (read_sol(bas) or "")[:600])))
     return V, C, True
 
 
